@@ -37,12 +37,18 @@ impl Receiver<Command> {
 pub fn vx_filter_keys<V, F: Fn(&String, &V) -> bool>(m: &HashMap<String, V>, f: F) -> (r: Vec<String>)
     requires forall|k: &String, v: &V| #[trigger] f.requires((k, v)),
     ensures
+        r@.no_duplicates(),
         forall|i: int| 0 <= i < r@.len() ==> m@.contains_key(#[trigger] r@[i]) && f.ensures((&r@[i], &m@[r@[i]]), true),
         // an entry that is not listed was looked at and rejected
         forall|k: String| m@.contains_key(k) && !(#[trigger] r@.contains(k)) ==> f.ensures((&k, &m@[k]), false),
 { unimplemented!() }
+// proved in unit events (same two clauses): the event goes to the resolver registered under the lower-cased name
 #[verifier::external_body]
-pub fn call_hostname_resolution_listener(listeners_map: &HashMap<String, (Sender<HostnameResolutionEvent>, Option<u64>)>, hostname: &str, event: HostnameResolutionEvent) { unimplemented!() }
+pub fn call_hostname_resolution_listener(listeners_map: &HashMap<String, (Sender<HostnameResolutionEvent>, Option<u64>)>, hostname: &str, event: HostnameResolutionEvent, vx_hlog: &mut Ghost<Seq<Sent<HostnameResolutionEvent>>>)
+    ensures
+        m_has(listeners_map@, lower(hostname@)) ==> logged_one(old(vx_hlog)@, final(vx_hlog)@, listeners_map@[key_string(lower(hostname@))].0, event),
+        !m_has(listeners_map@, lower(hostname@)) ==> final(vx_hlog)@ == old(vx_hlog)@,
+{ unimplemented!() }
 #[verifier::external_body]
 pub fn vx_count_inc(c: i64) -> (r: i64) { unimplemented!() }   // `c += 1` on a per-iteration statistics counter (no overflow assumed)
 #[verifier::external_body] pub struct ScopedIpX { x: u8 }
@@ -59,8 +65,10 @@ impl DnsCache {
     pub fn refresh_due_hostname_resolutions(&self, hostname: &str) -> (r: &Vec<(String, ScopedIp)>)
         ensures forall|i: int| 0 <= i < r@.len() ==> max_label((#[trigger] r@[i]).0@) < 64,
     { unimplemented!() }
+    // proved in unit cachewalk; here: a named result
+    pub uninterp spec fn evicted_services(&self, now: u64) -> HashMap<String, HashSet<String>>;
     #[verifier::external_body]
-    pub fn evict_expired_services(&mut self, now: u64) -> (r: HashMap<String, HashSet<String>>) { unimplemented!() }
+    pub fn evict_expired_services(&mut self, now: u64) -> (r: HashMap<String, HashSet<String>>) ensures r == old(self).evicted_services(now) { unimplemented!() }
     #[verifier::external_body]
     pub fn evict_expired_addr(&mut self, now: u64) -> (r: HashMap<String, HashSet<ScopedIp>>) { unimplemented!() }
     #[verifier::external_body]
@@ -77,12 +85,19 @@ impl Zeroconf {
     #[verifier::external_body]
     pub fn handle_poller_events(&mut self, events: &Events)
         ensures queue_ok(*old(self)) ==> queue_ok(*final(self)), cover_kept(*old(self), *final(self)), final(self).ip_check_interval == old(self).ip_check_interval,
+            final(self).hostname_resolvers == old(self).hostname_resolvers,   // handle_response: proved (unit events, searches_untouched); handle_query / handle_read: by inspection
+    { unimplemented!() }
+    // proved in unit events (same three clauses)
+    #[verifier::external_body]
+    pub fn notify_service_removal(&self, expired: HashMap<String, HashSet<String>>, vx_log: &mut Ghost<Seq<Sent<ServiceEvent>>>)
+        ensures
+            extends(old(vx_log)@, final(vx_log)@),
+            forall|k: int| old(vx_log)@.len() <= k < final(vx_log)@.len() ==> removal_justified(self.service_queriers@, expired@, #[trigger] final(vx_log)@[k]),
+            forall|ty: String, inst: String| self.service_queriers@.contains_key(ty) && expired@.contains_key(ty) && #[trigger] expired@[ty]@.contains(inst) ==> handed_over(final(vx_log)@, old(vx_log)@.len() as int, self.service_queriers@[ty], ServiceEvent::ServiceRemoved(ty, inst)),
     { unimplemented!() }
     #[verifier::external_body]
-    pub fn notify_service_removal(&self, expired: HashMap<String, HashSet<String>>) { unimplemented!() }
-    #[verifier::external_body]
-    pub fn resolve_updated_instances(&mut self, updated_instances: &HashSet<String>)
-        ensures queue_ok(*old(self)) ==> queue_ok(*final(self)), cover_kept(*old(self), *final(self)), final(self).ip_check_interval == old(self).ip_check_interval, final(self).hostname_resolvers == old(self).hostname_resolvers,
+    pub fn resolve_updated_instances(&mut self, updated_instances: &HashSet<String>, vx_log: &mut Ghost<Seq<Sent<ServiceEvent>>>)
+        ensures extends(old(vx_log)@, final(vx_log)@), queue_ok(*old(self)) ==> queue_ok(*final(self)), cover_kept(*old(self), *final(self)), final(self).ip_check_interval == old(self).ip_check_interval, final(self).hostname_resolvers == old(self).hostname_resolvers,
     { unimplemented!() }
 }
 // the clock as the run loop sees it: every read is some time (not frozen across iterations as in the handler units)
